@@ -423,6 +423,8 @@ class Interp:
             t, v = stmt.targets[0], stmt.value
             # container[key] = value
             if isinstance(t, ast.Subscript) and self._cont(t.value):
+                if isinstance(t.slice, ast.Slice) and t.slice.lower is None and t.slice.upper is None and t.slice.step is None and isinstance(v, (ast.List, ast.Tuple)) and not v.elts:
+                    return [self._clear(st, self._cont(t.value))], []  # type: ignore[arg-type]  # container[:] = []
                 k = self._keyname(t.slice, st)
                 if k is None:
                     self.unmodelled.append(norm(stmt))
@@ -448,6 +450,15 @@ class Interp:
             if k is not None and st.m(k, c) is False:  # type: ignore[arg-type]
                 return [st.prob(f"`{norm(stmt)}` on a key that is not in self.{c} (KeyError)")], []
             return [st], []
+        if isinstance(stmt, ast.Delete) and len(stmt.targets) == 1 and isinstance(stmt.targets[0], ast.Subscript) and self._cont(stmt.targets[0].value) \
+                and isinstance(stmt.targets[0].slice, ast.Call) and isinstance(stmt.targets[0].slice.func, ast.Attribute) and stmt.targets[0].slice.func.attr == "pop" \
+                and self.model.queue and self._cont(stmt.targets[0].slice.func.value) == self.model.queue:
+            # del container[queue.pop(0)]  ==  victim = queue.pop(0); del container[victim]
+            tmp = ast.Name(id="_anon_victim", ctx=ast.Load())
+            first = ast.copy_location(ast.Assign(targets=[ast.Name(id="_anon_victim", ctx=ast.Store())], value=stmt.targets[0].slice), stmt)
+            second = ast.copy_location(ast.Delete(targets=[ast.Subscript(value=stmt.targets[0].value, slice=tmp, ctx=ast.Del())]), stmt)
+            ast.fix_missing_locations(first), ast.fix_missing_locations(second)
+            return self.run_block([first, second], [st])
         if isinstance(stmt, ast.Delete):
             out = st
             for t in stmt.targets:
@@ -1104,8 +1115,20 @@ def rule_negative_slice(ctx: Ctx) -> None:
     ctx.add("7-disk-bound", MOD, "", True, f"{n} slice bound(s) computed from max_size examined", key="negative-slice-scan")
 
 
-def _value_flows(d: Defs, e: ast.AST, param: str) -> bool:
-    return any(isinstance(x, ast.Name) and x.id == param for x in ast.walk(d.resolve(e)))
+def _value_flows(cfg, at: int, e: ast.AST, param: str, _depth: int = 0) -> bool:
+    """The expression `e`, evaluated at CFG node `at`, is computed from `param`: it names it, or names a local every reaching
+    definition of which is computed from it (the arms of a conditional; a dead initialisation does not reach)."""
+    from ..flow import reaching_values
+
+    if any(isinstance(x, ast.Name) and x.id == param for x in ast.walk(e)):
+        return True
+    if _depth >= 5:
+        return False
+    for nm in sorted({x.id for x in ast.walk(e) if isinstance(x, ast.Name) and isinstance(x.ctx, ast.Load)}):
+        rv = reaching_values(cfg, nm, at)
+        if rv and all(_value_flows(cfg, n_, v_, param, _depth + 1) for n_, v_ in rv):
+            return True
+    return False
 
 
 def rule_stores(ctx: Ctx) -> None:
@@ -1143,7 +1166,7 @@ def rule_stores(ctx: Ctx) -> None:
         wp = None if ok else cfg.witness_path(ENTRY, EXIT, stores)
         ctx.add("8-stores", fn, fn.node, ok, "every normal path of put() stores under the key" if ok else
                 f"a path through {cname}.put returns without storing the value: `key in cache` holds but get() returns an older value", key=f"{cname}.put stores", path=cfg.describe(wp, fn.module.relpath) if wp else None)
-        flows = all(_value_flows(d, paired_value[n] if n in paired_value else cfg.stmt[n].value, value) for n in stores)
+        flows = all(_value_flows(cfg, n, paired_value[n] if n in paired_value else cfg.stmt[n].value, value) for n in stores)
         ctx.tri("8-stores", fn, cfg.stmt[sorted(stores)[0]], flows, False, f"the stored object is derived from `{value}`", "", f"the stored expression does not mention `{value}` after following local definitions", key=f"{cname}.put value")
     dp = ctx.prog.func(f"{MOD}.DiskCache.put")
     params = [p for p in dp.param_names() if p != "self"]
